@@ -321,6 +321,9 @@ func c05ConfigEnum(thorough bool) mc.Enum {
 				posted := 0
 				for i, f := range cfg {
 					mp := int64(len(strings.Split(f.prover, "+")))
+					if f.prover == "P1^x2" {
+						mp = 3
+					}
 					msg := storagetypes.NewMsgPostFile(u, files[i].merkle, f.size, 0, 0, mp, "{}")
 					if !f.plan {
 						msg.Expires = h + 20_000
@@ -329,6 +332,26 @@ func c05ConfigEnum(thorough bool) mc.Enum {
 						continue
 					}
 					posted++
+					if f.prover == "P1^x2" { // P1 signs with the capital spelling of its address and proves twice
+						up := strings.ToUpper(w.A("P1").Bech)
+						item, hl := files[i].proofFor(0)
+						env.Deliver(storagetypes.NewMsgPostProof(up, files[i].merkle, u, h, item, hl, 0))
+						c := int64(0)
+						for _, sp := range []string{up, w.A("P1").Bech} {
+							if pr, ok := w.App.StorageKeeper.GetProof(env.Ctx(), sp, files[i].merkle, u, h); ok {
+								c = pr.ChunkToProve
+								break
+							}
+						}
+						if c < int64(len(files[i].chunks)) {
+							item, hl = files[i].proofFor(int(c))
+						}
+						if ok, _ := postProofOK(w, env.Deliver(storagetypes.NewMsgPostProof(up, files[i].merkle, u, h, item, hl, c))); !ok && c != 0 {
+							item, hl = files[i].proofFor(0) // a prover that lost track of its challenge starts over with the join proof
+							env.Deliver(storagetypes.NewMsgPostProof(up, files[i].merkle, u, h, item, hl, 0))
+						}
+						continue
+					}
 					for _, pv := range strings.Split(f.prover, "+") {
 						item, hl := files[i].proofFor(0)
 						env.Deliver(storagetypes.NewMsgPostProof(w.A(pv).Bech, files[i].merkle, u, h, item, hl, 0))
@@ -349,8 +372,14 @@ func c05ConfigEnum(thorough bool) mc.Enum {
 			return
 		}
 		for _, sz := range c05CfgSizes {
-			for _, p := range []string{"P1", "P2", "P1+P2"} {
+			for _, p := range []string{"P1", "P2", "P1+P2", "P1^x2"} {
 				for _, plan := range []bool{false, true} {
+					if p == "P1^x2" { // the capital-spelled prover re-proves, which needs the real 12 bytes: one size, pay-once
+						if sz == c05CfgSizes[0] && !plan {
+							rec(append(append([]fc{}, cur...), fc{12, p, false}))
+						}
+						continue
+					}
 					if p == "P1+P2" && (sz > 1<<62 || plan) {
 						continue // two provers need MaxProofs 2: size*2 must not overflow; keep this variant pay-once
 					}
